@@ -266,9 +266,9 @@ class Formatter(FormatterInterface):
         function = function_map.get(f.function, f.function)
         args = [self(arg) for arg in f.args]
         if "bessel_y" in function:
-            return "scipy.special.yn"
+            return f"scipy.special.yn({', '.join(args)})"
         if "bessel_j" in function:
-            return "scipy.special.jn"
+            return f"scipy.special.jn({', '.join(args)})"
         if function == "erf":
             return f"math.erf({args[0]})"
         argstr = ", ".join(args)
